@@ -15,6 +15,7 @@ import (
 	"fmt"
 	"math/rand"
 	"os"
+	"runtime"
 	"strconv"
 	"strings"
 	"testing"
@@ -37,6 +38,8 @@ type c11Outcome struct {
 	completed map[string]int
 	calls     []string
 	err       error
+	frameLen  int
+	alloc     uint64 // bytes allocated while the frame was decoded
 }
 
 func (o c11Outcome) orderly() string {
@@ -45,6 +48,10 @@ func (o c11Outcome) orderly() string {
 	}
 	if o.spun {
 		return "the reader did not come back (spin, or blocked for ever delivering a second result)"
+	}
+	if o.alloc > 512<<20 {
+		return fmt.Sprintf("decoding a frame of %d bytes made the client allocate %d bytes: a count in the frame is taken at its word "+
+			"(a slightly larger one is a fatal out-of-memory error, which no caller can handle)", o.frameLen, o.alloc)
 	}
 	for _, c := range o.calls {
 		if o.completed[c] > 1 {
@@ -196,6 +203,7 @@ func c11feed(it *c11item, frame []byte) c11Outcome {
 	type res struct {
 		err   error
 		panic string
+		alloc uint64
 	}
 	done := make(chan res, 1)
 	go func() {
@@ -206,11 +214,17 @@ func c11feed(it *c11item, frame []byte) c11Outcome {
 			}
 			done <- r
 		}()
+		var m0, m1 runtime.MemStats
+		runtime.ReadMemStats(&m0)
+		defer func() {
+			runtime.ReadMemStats(&m1)
+			r.alloc = m1.TotalAlloc - m0.TotalAlloc
+		}()
 		r.err = c.receive(bytes.NewReader(frame))
 	}()
 	select {
 	case r := <-done:
-		out.err, out.panicked = r.err, r.panic
+		out.err, out.panicked, out.alloc, out.frameLen = r.err, r.panic, r.alloc, len(frame)
 	case <-time.After(2 * time.Second):
 		out.spun = true
 	}
@@ -386,13 +400,23 @@ func c11apply(cs c11Case, it *c11item, p *c11parts) [][]byte {
 		return frames
 	case "cellblock/trailingGarbage":
 		p.cells = append(p.cells, []byte{1, 2, 3})
-	case "cellCount/plus1", "cellCount/minus1", "cellCount/huge":
+	case "cellCount/plus1", "cellCount/minus1", "cellCount/huge", "cellCount/wrap8", "cellCount/wrap16", "cellCount/wrap24", "cellCount/wrap32", "cellCount/wrap48":
 		f := func(x int32) int32 {
 			switch cs.Op {
 			case "plus1":
 				return x + 1
 			case "minus1":
 				return x - 1
+			case "wrap8":
+				return (1<<32 + 8) / 8
+			case "wrap16":
+				return (1<<32 + 16) / 16
+			case "wrap24":
+				return (1<<32 + 8) / 24
+			case "wrap32":
+				return (1<<32 + 32) / 32
+			case "wrap48":
+				return (1<<32 + 32) / 48
 			}
 			return 0x7fffffff
 		}
